@@ -1,0 +1,119 @@
+//go:build verif
+
+package connectconformance
+
+// Contracts for the derivation of expected responses (C02), test_case_library.go.
+//
+// The response definition is read from the first request message: m = the message decoded
+// from RequestMessages[0] (ghost lastDecoded), its definition sdefOf(m) / udefOf(m).
+
+//@ elemvalues []*conformancev1.ConformancePayload: v != nil
+
+//@ func convertToInt64Ptr
+//@   modifies nothing
+//@   ensures (result == nil) == (num == nil) && (num != nil ==> *result == *num && fresh(result))
+
+// request info that echoes everything: the request's headers, all its messages, its timeout
+//@ spec fullInfo(ri *conformancev1.ConformancePayload_RequestInfo, r *conformancev1.ClientCompatRequest) bool = ri != nil &&
+//@    ri.RequestHeaders == r.RequestHeaders && ri.Requests == r.RequestMessages && ((ri.TimeoutMs == nil) == (r.TimeoutMs == nil)) && (r.TimeoutMs != nil ==> *ri.TimeoutMs == *r.TimeoutMs)
+
+// Streams: nothing is expected without a definition; otherwise the definition's headers,
+// trailers and error, and one payload per response datum, in order, with that datum. Server
+// streams and half-duplex bidi streams echo the whole request info in the first payload only;
+// a full-duplex bidi stream echoes request k in payload k (headers and timeout in the first)
+// as long as there is a request k - further payloads carry no request info. A definition
+// with only an error gets the request info appended to the error's details. Never a panic.
+//@ func populateExpectedStreamResponse
+//@   requires testCase != nil && testCase.Request != nil
+//@   modifies pbDecodedFrom, lastDecoded, conformancev1.TestCase.ExpectedResponse, conformancev1.Error.Details, []*anypb.Any, ceCode, ceMsg, ceDetails
+//@   ensures @none result == nil && (len(testCase.Request.RequestMessages) == 0 || sdefOf(lastDecoded[testCase.Request.RequestMessages[0]]) == nil) ==>
+//@        testCase.ExpectedResponse != nil && fresh(testCase.ExpectedResponse) && len(testCase.ExpectedResponse.Payloads) == 0 && testCase.ExpectedResponse.Error == nil &&
+//@        len(testCase.ExpectedResponse.ResponseHeaders) == 0 && len(testCase.ExpectedResponse.ResponseTrailers) == 0
+//@   ensures @shape result == nil && len(testCase.Request.RequestMessages) > 0 && sdefOf(lastDecoded[testCase.Request.RequestMessages[0]]) != nil ==>
+//@        testCase.ExpectedResponse != nil && fresh(testCase.ExpectedResponse) &&
+//@        testCase.ExpectedResponse.ResponseHeaders == sdefOf(lastDecoded[testCase.Request.RequestMessages[0]]).ResponseHeaders &&
+//@        testCase.ExpectedResponse.ResponseTrailers == sdefOf(lastDecoded[testCase.Request.RequestMessages[0]]).ResponseTrailers &&
+//@        testCase.ExpectedResponse.Error == sdefOf(lastDecoded[testCase.Request.RequestMessages[0]]).Error &&
+//@        len(testCase.ExpectedResponse.Payloads) == len(sdefOf(lastDecoded[testCase.Request.RequestMessages[0]]).ResponseData)
+//@   ensures @data result == nil && len(testCase.Request.RequestMessages) > 0 && sdefOf(lastDecoded[testCase.Request.RequestMessages[0]]) != nil ==>
+//@        forall k int :: 0 <= k && k < len(testCase.ExpectedResponse.Payloads) ==> testCase.ExpectedResponse.Payloads[k] != nil &&
+//@           testCase.ExpectedResponse.Payloads[k].Data == sdefOf(lastDecoded[testCase.Request.RequestMessages[0]]).ResponseData[k]
+//@   ensures @echo-first result == nil && len(testCase.Request.RequestMessages) > 0 && sdefOf(lastDecoded[testCase.Request.RequestMessages[0]]) != nil &&
+//@        (testCase.Request.StreamType == 3 || testCase.Request.StreamType == 4) ==>
+//@        forall k int :: 0 <= k && k < len(testCase.ExpectedResponse.Payloads) ==>
+//@           (k == 0 ? fullInfo(testCase.ExpectedResponse.Payloads[k].RequestInfo, testCase.Request) : testCase.ExpectedResponse.Payloads[k].RequestInfo == nil)
+//@   ensures @echo-each result == nil && len(testCase.Request.RequestMessages) > 0 && sdefOf(lastDecoded[testCase.Request.RequestMessages[0]]) != nil && testCase.Request.StreamType == 5 ==>
+//@        forall k int :: 0 <= k && k < len(testCase.ExpectedResponse.Payloads) ==>
+//@           (k < len(testCase.Request.RequestMessages) ?
+//@               (testCase.ExpectedResponse.Payloads[k].RequestInfo != nil && len(testCase.ExpectedResponse.Payloads[k].RequestInfo.Requests) == 1 &&
+//@                testCase.ExpectedResponse.Payloads[k].RequestInfo.Requests[0] == testCase.Request.RequestMessages[k] &&
+//@                (k == 0 ? testCase.ExpectedResponse.Payloads[k].RequestInfo.RequestHeaders == testCase.Request.RequestHeaders : len(testCase.ExpectedResponse.Payloads[k].RequestInfo.RequestHeaders) == 0)) :
+//@               testCase.ExpectedResponse.Payloads[k].RequestInfo == nil)
+//@   ensures @err-detail result == nil && len(testCase.Request.RequestMessages) > 0 && sdefOf(lastDecoded[testCase.Request.RequestMessages[0]]) != nil &&
+//@        len(sdefOf(lastDecoded[testCase.Request.RequestMessages[0]]).ResponseData) == 0 && sdefOf(lastDecoded[testCase.Request.RequestMessages[0]]).Error != nil ==>
+//@        len(testCase.ExpectedResponse.Error.Details) >= 1 &&
+//@        typeis(anyNewSrc(testCase.ExpectedResponse.Error.Details[len(testCase.ExpectedResponse.Error.Details)-1]), *conformancev1.ConformancePayload_RequestInfo) &&
+//@        fullInfo(unbox(anyNewSrc(testCase.ExpectedResponse.Error.Details[len(testCase.ExpectedResponse.Error.Details)-1]), *conformancev1.ConformancePayload_RequestInfo), testCase.Request)
+//@   //# the details of the freshly decoded definition do not share memory with the test case's own message list
+//@   assume_at "expected.Error.Details = append(expected.Error.Details, reqInfoAny)": slicebase(expected.Error.Details) == 0 || slicebase(expected.Error.Details) != slicebase(testCase.Request.RequestMessages)
+//@   loop 0: invariant expected != nil && fresh(expected) && def != nil && def == sdefOf(lastDecoded[testCase.Request.RequestMessages[0]]) && len(testCase.Request.RequestMessages) > 0 && testCase.ExpectedResponse == atpre(testCase.ExpectedResponse)
+//@           invariant len(def.ResponseData) == 0 && expected.Error != nil ==> len(expected.Error.Details) >= 1 &&
+//@                typeis(anyNewSrc(expected.Error.Details[len(expected.Error.Details)-1]), *conformancev1.ConformancePayload_RequestInfo) &&
+//@                fullInfo(unbox(anyNewSrc(expected.Error.Details[len(expected.Error.Details)-1]), *conformancev1.ConformancePayload_RequestInfo), testCase.Request)
+//@           invariant expected.ResponseHeaders == def.ResponseHeaders && expected.ResponseTrailers == def.ResponseTrailers && expected.Error == def.Error && len(expected.Payloads) == len(def.ResponseData) && fresh(expected.Payloads)
+//@           invariant forall k int :: 0 <= k && k <= rangeindex ==> expected.Payloads[k] != nil && fresh(expected.Payloads[k]) && allocated(expected.Payloads[k]) && expected.Payloads[k].Data == def.ResponseData[k]
+//@           invariant (testCase.Request.StreamType == 3 || testCase.Request.StreamType == 4) ==> forall k int :: 0 <= k && k <= rangeindex ==>
+//@               (k == 0 ? fullInfo(expected.Payloads[k].RequestInfo, testCase.Request) : expected.Payloads[k].RequestInfo == nil)
+//@           invariant testCase.Request.StreamType == 5 ==> forall k int :: 0 <= k && k <= rangeindex ==>
+//@               (k < len(testCase.Request.RequestMessages) ?
+//@                   (expected.Payloads[k].RequestInfo != nil && fresh(expected.Payloads[k].RequestInfo) && allocated(expected.Payloads[k].RequestInfo) && len(expected.Payloads[k].RequestInfo.Requests) == 1 && fresh(expected.Payloads[k].RequestInfo.Requests) && allocated(expected.Payloads[k].RequestInfo.Requests) &&
+//@                    expected.Payloads[k].RequestInfo.Requests[0] == testCase.Request.RequestMessages[k] &&
+//@                    (k == 0 ? expected.Payloads[k].RequestInfo.RequestHeaders == testCase.Request.RequestHeaders : len(expected.Payloads[k].RequestInfo.RequestHeaders) == 0)) :
+//@                   expected.Payloads[k].RequestInfo == nil)
+
+// Unary and client streams: without a definition a single payload echoing the whole request
+// info is expected; with an error definition the error (with the request info appended to its
+// details) and no payload; otherwise one payload with the given data and the whole request
+// info; headers and trailers are the definition's. A GET request additionally expects the
+// query parameters encoding (json for the JSON codec, proto otherwise) and connect=v1.
+//@ spec getInfoOK(ri *conformancev1.ConformancePayload_RequestInfo, r *conformancev1.ClientCompatRequest) bool =
+//@    r.UseGetHttpMethod ? (ri.ConnectGetInfo != nil && len(ri.ConnectGetInfo.QueryParams) == 2 &&
+//@        ri.ConnectGetInfo.QueryParams[0].Name == "encoding" && len(ri.ConnectGetInfo.QueryParams[0].Value) == 1 && ri.ConnectGetInfo.QueryParams[0].Value[0] == (r.Codec == 2 ? "json" : "proto") &&
+//@        ri.ConnectGetInfo.QueryParams[1].Name == "connect" && len(ri.ConnectGetInfo.QueryParams[1].Value) == 1 && ri.ConnectGetInfo.QueryParams[1].Value[0] == "v1") :
+//@       ri.ConnectGetInfo == nil
+//@ func populateExpectedUnaryResponse
+//@   requires testCase != nil && testCase.Request != nil
+//@   modifies pbDecodedFrom, lastDecoded, conformancev1.TestCase.ExpectedResponse, conformancev1.Error.Details, []*anypb.Any, ceCode, ceMsg, ceDetails
+//@   ensures @nodef result == nil && (len(testCase.Request.RequestMessages) == 0 || udefOf(lastDecoded[testCase.Request.RequestMessages[0]]) == nil) ==>
+//@        testCase.ExpectedResponse != nil && fresh(testCase.ExpectedResponse) && testCase.ExpectedResponse.Error == nil && len(testCase.ExpectedResponse.Payloads) == 1 &&
+//@        fullInfo(testCase.ExpectedResponse.Payloads[0].RequestInfo, testCase.Request) && getInfoOK(testCase.ExpectedResponse.Payloads[0].RequestInfo, testCase.Request)
+//@   ensures @meta result == nil && len(testCase.Request.RequestMessages) > 0 && udefOf(lastDecoded[testCase.Request.RequestMessages[0]]) != nil ==>
+//@        testCase.ExpectedResponse != nil && fresh(testCase.ExpectedResponse) &&
+//@        testCase.ExpectedResponse.ResponseHeaders == udefOf(lastDecoded[testCase.Request.RequestMessages[0]]).ResponseHeaders &&
+//@        testCase.ExpectedResponse.ResponseTrailers == udefOf(lastDecoded[testCase.Request.RequestMessages[0]]).ResponseTrailers
+//@   ensures @error result == nil && len(testCase.Request.RequestMessages) > 0 && udefOf(lastDecoded[testCase.Request.RequestMessages[0]]) != nil &&
+//@        typeis(udefOf(lastDecoded[testCase.Request.RequestMessages[0]]).Response, *conformancev1.UnaryResponseDefinition_Error) ==>
+//@        len(testCase.ExpectedResponse.Payloads) == 0 &&
+//@        testCase.ExpectedResponse.Error == unbox(udefOf(lastDecoded[testCase.Request.RequestMessages[0]]).Response, *conformancev1.UnaryResponseDefinition_Error).Error &&
+//@        len(testCase.ExpectedResponse.Error.Details) >= 1 &&
+//@        typeis(anyNewSrc(testCase.ExpectedResponse.Error.Details[len(testCase.ExpectedResponse.Error.Details)-1]), *conformancev1.ConformancePayload_RequestInfo) &&
+//@        fullInfo(unbox(anyNewSrc(testCase.ExpectedResponse.Error.Details[len(testCase.ExpectedResponse.Error.Details)-1]), *conformancev1.ConformancePayload_RequestInfo), testCase.Request) &&
+//@        getInfoOK(unbox(anyNewSrc(testCase.ExpectedResponse.Error.Details[len(testCase.ExpectedResponse.Error.Details)-1]), *conformancev1.ConformancePayload_RequestInfo), testCase.Request)
+//@   ensures @data result == nil && len(testCase.Request.RequestMessages) > 0 && udefOf(lastDecoded[testCase.Request.RequestMessages[0]]) != nil &&
+//@        !typeis(udefOf(lastDecoded[testCase.Request.RequestMessages[0]]).Response, *conformancev1.UnaryResponseDefinition_Error) ==>
+//@        testCase.ExpectedResponse.Error == nil && len(testCase.ExpectedResponse.Payloads) == 1 &&
+//@        fullInfo(testCase.ExpectedResponse.Payloads[0].RequestInfo, testCase.Request) && getInfoOK(testCase.ExpectedResponse.Payloads[0].RequestInfo, testCase.Request) &&
+//@        (typeis(udefOf(lastDecoded[testCase.Request.RequestMessages[0]]).Response, *conformancev1.UnaryResponseDefinition_ResponseData) ?
+//@            testCase.ExpectedResponse.Payloads[0].Data == unbox(udefOf(lastDecoded[testCase.Request.RequestMessages[0]]).Response, *conformancev1.UnaryResponseDefinition_ResponseData).ResponseData :
+//@            len(testCase.ExpectedResponse.Payloads[0].Data) == 0)
+
+//@   //# the details of the freshly decoded definition do not share memory with the test case's own message list
+//@   assume_at "respType.Error.Details = append(respType.Error.Details, reqInfoAny)": slicebase(respType.Error.Details) == 0 || slicebase(respType.Error.Details) != slicebase(testCase.Request.RequestMessages)
+
+// the expectation given in the suite file wins; otherwise it is derived by stream type
+//@ func populateExpectedResponse
+//@   requires testCase != nil && testCase.Request != nil
+//@   modifies pbDecodedFrom, lastDecoded, conformancev1.TestCase.ExpectedResponse, conformancev1.Error.Details, []*anypb.Any, ceCode, ceMsg, ceDetails
+//@   ensures @given old(testCase.ExpectedResponse) != nil ==> result == nil && testCase.ExpectedResponse == old(testCase.ExpectedResponse)
+//@   ensures @derived result == nil ==> testCase.ExpectedResponse != nil
+//@   ensures @typed testCase.Request.StreamType == 0 && old(testCase.ExpectedResponse) == nil ==> result != nil
